@@ -245,5 +245,4 @@ theorem interference (pre suf : List Inst) (hwf : WFs (pre ++ suf)) (i j : Nat)
   apply hinv.live_inj i hi j hj
   rw [hvi, hvj]; exact h
 
-#print axioms interference
 end P.Alloc
